@@ -118,6 +118,26 @@ def r2_clip_scale_trunc_cast(ctx):
     clips = [c for c in calls_in(f.node) if call_name(c) in ("np.clip", "numpy.clip")]
     ok = len(clips) == 1 and dotted(arg_or_kw(clips[0], 0, "a")) == "signal" and dotted(arg_or_kw(clips[0], 1, "a_min")) == "voltage_min" and dotted(arg_or_kw(clips[0], 2, "a_max")) == "voltage_max"
     ctx.check(ok, f.qual + "#clip", "clip(signal, voltage_min, voltage_max)" if ok else "the signal is not clipped to [voltage_min, voltage_max] before scaling", where=f, node=clips[0] if clips else f.node)
+    # clip and normalisation use the SAME bounds in the same precision: no precision change of the clipped signal
+    # between the clip and the offset / scale (a float32 frame clipped to float32-rounded bounds and then offset by
+    # the exact float64 bound leaves residues: full scale is missed, negative codes wrap at >= 32 bit)
+    from sa.index import ancestors as _anc4
+
+    conv = None
+    for cl in clips:
+        for a in _anc4(cl):
+            if isinstance(a, ast.stmt):
+                break
+            if isinstance(a, ast.Call) and ((isinstance(a.func, ast.Attribute) and a.func.attr in ("astype", "view")) or call_name(a).split(".")[-1] in ("float64", "float32", "float16", "asarray", "array", "asfarray") and any(k.arg == "dtype" for k in a.keywords) or call_name(a).split(".")[-1] in ("float64", "float32", "float16", "double", "single")):
+                conv = a
+        st_ = enclosing_stmt(cl)
+        if conv is None and isinstance(st_, (ast.Assign, ast.AnnAssign)):
+            tg_ = st_.targets[0] if isinstance(st_, ast.Assign) else st_.target
+            if isinstance(tg_, ast.Name):
+                for n_ in ast.walk(f.node):
+                    if isinstance(n_, ast.Call) and isinstance(n_.func, ast.Attribute) and n_.func.attr in ("astype", "view") and dotted(n_.func.value) == tg_.id and not (n_.args and dotted(n_.args[0]) == "dtype"):
+                        conv = n_
+    ctx.check(conv is None, f.qual + "#clip-precision", "the clipped signal is offset and scaled in the precision it was clipped in" if conv is None else f"`{norm(conv)[:60]}` changes the precision of the signal AFTER it was clipped: clip bounds (rounded to the frame's type) and offset / span (exact) no longer agree, so saturated inputs miss full scale and, below the range, negative codes wrap", where=f, node=conv if conv is not None else f.node)
     ctx.trust("np.clip saturates; np.trunc is monotone")
 
 
